@@ -22,9 +22,14 @@ import (
 	"io"
 )
 
-type emptyCursor struct{}
-
-var emptyCur emptyCursor
+// emptyCursor is the cursor over no partitions (the source expression of the query matches nothing). It remembers
+// the query, so that the continuation request built from its state is the same query read from the beginning: the
+// partitions that match by then are all new for the reader. There is no partition to wait on: WaitNewData returns
+// when ctx is done, not before (answering nil, "new data", at once would make the wait loop of a query spin for
+// ever: Get answers io.EOF again).
+type emptyCursor struct {
+	state State
+}
 
 func (ec emptyCursor) Next(ctx context.Context) {}
 func (ec emptyCursor) Get(ctx context.Context) (model.LogEvent, tag.Line, error) {
@@ -36,5 +41,5 @@ func (ec emptyCursor) CurrentPos() records.IteratorPos       { return "" }
 func (ec emptyCursor) Id() uint64                            { return 0 }
 func (ec emptyCursor) Offset(ctx context.Context, offs int)  {}
 func (ec emptyCursor) ApplyState(state State) error          { return nil }
-func (ec emptyCursor) State(context.Context) State           { return State{} }
-func (ec emptyCursor) WaitNewData(ctx context.Context) error { return nil }
+func (ec emptyCursor) State(context.Context) State           { return ec.state }
+func (ec emptyCursor) WaitNewData(ctx context.Context) error { <-ctx.Done(); return ctx.Err() }
